@@ -35,6 +35,10 @@ def main():
     for f in os.listdir(src):
         if f.endswith(".log"):
             continue
+        if f == "meta.json":
+            # the sub-agent's own description is kept separately; meta.json is ours and accumulates results
+            shutil.copy(os.path.join(src, f), os.path.join(dst, "agent_meta.json"))
+            continue
         if os.path.isdir(os.path.join(src, f)):
             shutil.copytree(os.path.join(src, f), os.path.join(dst, f), dirs_exist_ok=True)
         else:
@@ -57,20 +61,28 @@ def main():
         for f in sorted(os.listdir(dst)):
             if f.endswith("_test.go"):
                 demo = os.path.join(dst, f)
-        dest_rel, cmd = None, None
+        dest_rel, cmd, cwd_rel = None, None, ""
         if demo:
-            head = open(demo).read()[:4000]
+            head = open(demo).read()[:6000]
+            m = re.search(r"(go test [^\n]*)", head)
+            if m:
+                cmd = m.group(1).strip().rstrip("`").strip()
             m = re.search(r"[Cc]opy (?:this file )?(?:in)?to:?\s+`?([\w./-]+_test\.go)", head)
             if m:
                 dest_rel = m.group(1)
-            m = re.search(r"^\s*//\s*((?:cd [\w./]+ && )?go test [^\n]+)$", head, re.M)
-            if m:
-                cmd = m.group(1).strip()
-        result["demo_dest"], result["demo_cmd"] = dest_rel, cmd
+            if cmd:
+                pm = re.search(r"(\./[\w./-]+)", cmd)
+                pkg = pm.group(1) if pm else None
+                if pkg:
+                    if not os.path.isdir(os.path.join(wt, pkg)) and os.path.isdir(os.path.join(wt, "sdk", pkg)):
+                        cwd_rel = "sdk"
+                    if not dest_rel:
+                        dest_rel = os.path.normpath(os.path.join(cwd_rel, pkg, "zz_seed_demo_%s_test.go" % name.lower().replace("-", "")))
+        result["demo_dest"], result["demo_cmd"], result["demo_cwd"] = dest_rel, cmd, cwd_rel or "."
         if not skip_demo and demo and dest_rel and cmd:
             dpath = os.path.join(wt, dest_rel)
             shutil.copy(demo, dpath)
-            rc0, out0 = sh(cmd, cwd=wt)
+            rc0, out0 = sh(cmd, cwd=os.path.join(wt, cwd_rel))
             result["demo_without_change"] = "PASS" if rc0 == 0 else "FAIL(rc=%d)" % rc0
             if rc0 != 0:
                 result["demo_without_change_tail"] = out0[-1500:]
@@ -83,14 +95,14 @@ def main():
             return 2
         rc, out = sh("go build ./... 2>&1 | tail -5", cwd=wt)
         if not skip_demo and demo and dest_rel and cmd:
-            rc1, out1 = sh(cmd, cwd=wt)
+            rc1, out1 = sh(cmd, cwd=os.path.join(wt, cwd_rel))
             builderr = "build failed" in out1 or "[build failed]" in out1
             result["demo_with_change"] = ("FAIL" if rc1 != 0 and not builderr else ("BUILD-ERROR" if builderr else "PASS"))
             result["demo_with_change_tail"] = out1[-1200:]
             os.remove(os.path.join(wt, dest_rel))
         # run the checks against the patched tree
         result["checks"] = {}
-        for cid in [pid] + also:
+        for cid in ([] if "--demo-only" in sys.argv else [pid] + also):
             env = dict(os.environ, VERIF_REPO=wt, VERIF_SEED=os.environ.get("VERIF_SEED", "0"))
             t0 = time.time()
             p = subprocess.run([os.path.join(VERIF, "check"), cid, "--tier", tier, "--no-evidence"], cwd=VERIF, env=env, stdout=subprocess.PIPE, stderr=subprocess.STDOUT, text=True, timeout=7200)
@@ -129,6 +141,10 @@ def main():
             prev = old["confirmed_by_lead"]["checks"]
             prev.update(result.get("checks", {}))
             result["checks"] = prev
+        if "confirmed_by_lead" in old and skip_demo:
+            for k in ("demo_dest", "demo_cmd", "demo_cwd", "demo_without_change", "demo_with_change", "demo_with_change_tail"):
+                if old["confirmed_by_lead"].get(k) is not None:
+                    result[k] = old["confirmed_by_lead"][k]
     except Exception:
         pass
     json.dump(meta, open(mp, "w"), indent=1)
